@@ -292,6 +292,27 @@ where
                     if transformer_info.when_to_insert == InsertTransformer::Lazily {
                         continue;
                     }
+                    // The `pavex::Error::new` upcast of an error that's handled via its concrete type
+                    // is only there to feed error observers: it'd be a dangling node in a call graph
+                    // that has no observers (e.g. a middleware shared by a route with observers
+                    // and a route without).
+                    if error_observer_ids.is_empty()
+                        && component_db
+                            .transformer_ids(*transformer_id)
+                            .is_none_or(|ids| ids.is_empty())
+                        && component_db
+                            .hydrated_component(*transformer_id, computation_db)
+                            .output_type()
+                            == Some(&component_db.pavex_error)
+                        && matches!(
+                            component_db
+                                .hydrated_component(component_id, computation_db)
+                                .computation(),
+                            Computation::MatchResult(m) if m.variant == MatchResultVariant::Err
+                        )
+                    {
+                        continue;
+                    }
                     // Not all transformers might be relevant to this `CallGraph`, we need to take their scope into account.
                     let transformer_scope_id = component_db.scope_id(*transformer_id);
                     if root_scope_id
